@@ -22,6 +22,8 @@ SWITCHES = ["FixMemAfterCommit", "FixSnapshot", "FixReorgWindow", "FixPruneAtomi
 SCEN = {
     # from an empty database, no bloom-window boundary in reach
     "gen": dict(MaxH=3, MaxVer=2, InitH=-1, Boundary=99, Genesis=True),
+    # a chain 0..2 from genesis (pruning and deeper reverts in reach), no boundary
+    "mid": dict(MaxH=4, MaxVer=2, InitH=2, Boundary=99, Genesis=True),
     # base chain ending two / zero blocks below the boundary (real blocks 8190.. / 8192..)
     "lo": dict(MaxH=3, MaxVer=2, InitH=0, Boundary=2, Genesis=False),
     "hi": dict(MaxH=3, MaxVer=2, InitH=2, Boundary=2, Genesis=False),
@@ -90,6 +92,16 @@ def run(ctx):
         vlib.require_actions_covered(r)
         r = ctx.tlc_check("chain", "MCCrash.tla", "Crash_thorough_b.cfg", timeout=3000, coverage=True)
         vlib.require_actions_covered(r)
+    if thorough:
+        # vacuity: the situations the properties talk about are reachable (each witness invariant
+        # claims "never" and must be violated)
+        for wname in ("NeverFailedWrite", "NeverCrashedMidPrune", "NeverCrossedBack"):
+            txt, _ = cfg_text("hi", repaired, max_ops=5, invariants=False)
+            txt = txt.replace("CHECK_DEADLOCK FALSE", "INVARIANTS %s\nCHECK_DEADLOCK FALSE" % wname)
+            r = ctx.tlc_check("chain", "MCCrash.tla", "witness.cfg", files={"witness.cfg": txt}, timeout=600,
+                              expect_violation=True, label="witness " + wname)
+            if r["ok"]:
+                raise vlib.Broken("vacuity: %s is never violated, i.e. the situation is unreachable in the model" % wname)
     if not all(faithful.values()):
         # the faithful model must exhibit the defects the probe saw (otherwise the switches do not
         # model them): TLC is expected to report a violation here, it is not a verdict
@@ -102,11 +114,13 @@ def run(ctx):
         ctx.coverage["faithful_model_violates"] = r["violated"]
 
     # ---- 2./3. binding
-    scen_list = ["gen", "lo", "hi"]
-    backends = {"gen": ["memory", "pebble"] if thorough else ["memory"], "lo": ["memory"], "hi": ["memory"]}
-    new_state = {"gen": [False, True], "lo": [False, True] if thorough else [False], "hi": [False, True] if thorough else [False]}
-    n_conf = {"gen": 400 if thorough else 60, "lo": 300 if thorough else 40, "hi": 300 if thorough else 40}
-    n_enum = {"gen": 120 if thorough else 14, "lo": 80 if thorough else 8, "hi": 60 if thorough else 6}
+    scen_list = ["gen", "mid", "lo", "hi"]
+    both = ["memory", "pebble"] if thorough else ["memory"]
+    backends = {"gen": both, "mid": both, "lo": ["memory"], "hi": ["memory"]}
+    one = [False, True] if thorough else [False]
+    new_state = {"gen": [False, True], "mid": [False, True], "lo": one, "hi": one}
+    n_conf = {"gen": 300, "mid": 400, "lo": 300, "hi": 300} if thorough else {"gen": 30, "mid": 50, "lo": 40, "hi": 40}
+    n_enum = {"gen": 60, "mid": 100, "lo": 80, "hi": 60} if thorough else {"gen": 5, "mid": 8, "lo": 7, "hi": 6}
     total_conf = total_enum = 0
     for i, sc in enumerate(scen_list):
         for pb in ([1, 99] if thorough else [1]):
